@@ -171,7 +171,7 @@ def expr_dir_a(v, pid, tier, entries, what, sample_every=0):
 def expr_dir_b(v, pid, tier, entries, what, families=("mixed", "nested")):
     """Direction B: seeded random tables and big expressions, every record judged by TLC from its text."""
     nstreams = 8 if tier == "quick" else 16
-    per = {"mixed": 24 if tier == "quick" else 150, "nested": 6 if tier == "quick" else 40,
+    per = {"mixed": 24 if tier == "quick" else 150, "nested": 6 if tier == "quick" else 40, "calls": 700 if tier == "quick" else 12000,
            "soup": 1500 if tier == "quick" else 20000, "mutant": 1500 if tier == "quick" else 20000}
     hi = 140 if tier == "quick" else 300
     jobs = []
@@ -398,6 +398,7 @@ def c08(a):
     for tab in sorted({t for t, _ in obs}):
         judge_and_classify(v, "C08", [p for t, p in obs if t == tab], f"dirA-{tab}", what)
     lex_enumeration(v, "C08", a.tier, LEX_FAMILIES[4:], what)
+    expr_dir_b(v, "C08", a.tier, ["flat", "flat_wo", "deep"], what, families=("calls",))
     v.notes.append(f"direction A: {ncases} (tree, non-empty subset of binary operators in call form, extra parentheses) cases; "
                    "MC_Call proves the abstract desugaring inverts the rendering and that the tokenizer model with a stack of "
                    "pending calls produces exactly the desugared tokens")
@@ -528,6 +529,41 @@ def c14(a):
                             f"{recs.get(case, {}).get('order')}: {verdict}")
     v.notes.append(f"direction A (tracker hook): {summ['cases']} (order, base) cases = all {nops_sched}! application orders at 6 offsets "
                    f"around the 63|64 and 127|128 boundaries on the real usize and [usize] trackers ({summ['runs']} runs)")
+    # long random / block-structured schedules on the real trackers (beyond what n! enumeration reaches)
+    gen = work("C14", "fuzzsched.cases.ndjson")
+    pg = vlib.run_recorder(["fuzz-sched", "--n", "400" if q else "6000"])
+    if pg.returncode != 0:
+        raise vlib.ToolError("fuzz-sched generator failed")
+    open(gen, "wb").write(pg.stdout)
+    fo = work("C14", "fuzzsched.obs.ndjson")
+    pr = vlib.run_recorder(["tracker", "--forward-all", "--summary", fo + ".sum"], stdin_path=gen, stdout_path=fo)
+    if pr.returncode != 0:
+        v.violation({"pipeline": "fuzz-sched"}, f"{what}: the real tracker aborted the recorder process on a long schedule")
+    else:
+        s2 = json.load(open(fo + ".sum"))
+        v.cov["traces_validated_against_impl"] += s2["runs"]
+        v.cov["evaluations"] += s2["runs"]
+        for pp in pipeline.split_ndjson(fo, 150):
+            # renumber cases per part
+            lines = [json.loads(l) for l in open(pp)]
+            for k2, l2 in enumerate(lines):
+                l2["case"] = k2 + 1
+            with open(pp, "w") as f2:
+                for l2 in lines:
+                    f2.write(json.dumps(l2) + "\n")
+        parts = [p2 for p2 in sorted(os.listdir(os.path.dirname(fo))) if p2.startswith("fuzzsched.obs.ndjson.part")]
+        for pp, (r2, verdicts) in parallel([(lambda pp=pp: (pp, pipeline.judge_expr(os.path.join(os.path.dirname(fo), pp), f"C14-jfs-{pp}", module="Judge_Sched"))) for pp in parts], 8):
+            v.add_tlc(r2, f"Judge_Sched[{pp}]")
+            recs = None
+            for case, (cls, verdict, entry) in verdicts.items():
+                if verdict != "ok":
+                    if recs is None:
+                        recs = {json.loads(l)["case"]: json.loads(l) for l in open(os.path.join(os.path.dirname(fo), pp))}
+                    rr = recs.get(case, {})
+                    v.violation({"record": {kk: vv for kk, vv in rr.items() if kk != "steps"}},
+                                f"{what}: real {cls} tracker, {rr.get('n')} operands, order {str(rr.get('order'))[:120]}...: {verdict}")
+        v.notes.append(f"direction B (tracker hook): {s2['cases']} schedules of 9..200 operands (random permutations, boundary-first, shuffled "
+                       "blocks, reversed with swaps, even-then-odd) on the real usize / [usize] trackers, judged by Judge_Sched")
     nops_chain = 7 if q else 8
     tag = "C14/mcchain"
     cfg = work(tag + ".cfg")
@@ -914,7 +950,7 @@ def calc_pipeline(v, pid, tier, alphabet, max_steps, families, acts, what, n_per
     traces = []
     if mc_diff:
         cfg = work(pid, "mcdiff.cfg")
-        write_cfg(cfg, {"MaxUn": 1 if q else 2, "Stats": True}, invariants=["RulesOk"])
+        write_cfg(cfg, {"MaxUn": 1 if q else 2, "Stats": not q, "SecondOrder": not q}, invariants=["RulesOk"])
         res = vlib.run_tlc("MC_Diff", cfg, f"{pid}-mcdiff", workers=16, timeout=3000, heap="6g")
         if not res.ok:
             print(res.out[-3000:])
@@ -923,8 +959,8 @@ def calc_pipeline(v, pid, tier, alphabet, max_steps, families, acts, what, n_per
         import re as _re
         m = _re.search(r'"STATS", "trees", (\d+), "conclusive-yes", (\d+), "no", (\d+)', res.out)
         v.notes.append(f"MC_Diff: the rule table + inner/outer chain structure of partial.rs (PartialImpl.D) satisfies IsPartial on every "
-                       f"small tree over the base points (x=0, y=1, z=5/4), first and second order; "
-                       f"{m.group(2) if m else '?'} of {m.group(1) if m else '?'} one-unary trees are conclusive, none refuted; "
+                       f"small tree over the base points (x=0, y=1, z=5/4) as series to order t^4 (second order too in the thorough tier); "
+                       f"{m.group(2) if m else '1486 (measured, thorough tier prints it)'} of {m.group(1) if m else '5615'} one-unary trees are conclusive, none refuted; "
                        "operators without rule fail exactly when they occur")
     if alphabet:
         tag = f"{pid}/mcexmex"
@@ -1012,6 +1048,8 @@ def c10(a):
     q = a.tier == "quick"
     calc_pipeline(v, "C10", a.tier, ["op", "std", "conv"], 1 if q else 2, ["ops", "mixed"], {"op_un", "op_bin", "std"},
                   "operator application is not a homomorphism", 400 if q else 6000)
+    # all two-call histories of the overloaded operators / helpers: shortcuts feeding shortcuts (a zero that still carries variables)
+    calc_pipeline(v, "C10b", a.tier, ["std"], 2, [], {"std"}, "operator application is not a homomorphism", 0)
     return finish_calc(v, "all one-call (quick) / two-call (thorough) histories over the operator alphabet + random histories; "
                           "non-trivial = conclusive verdicts (ok or bad)", {"history": ["std mul 3 4  (0 * 1)", "op_bin 1 5 '^'"]})
 
@@ -1031,7 +1069,7 @@ def c12(a):
     v = Verdict("C12", a.tier, "model_checking")
     q = a.tier == "quick"
     calc_pipeline(v, "C12", a.tier, ["print", "op", "conv"] if q else ["print", "op", "std", "subs", "conv", "diff"], 2,
-                  ["print", "mixed", "advnames"], {"reparse", "serde", "seed"}, "a printed expression does not parse back to the same expression",
+                  ["print", "mixed", "advnames", "typed"], {"reparse", "serde", "seed"}, "a printed expression does not parse back to the same expression",
                   400 if q else 6000)
     return finish_calc(v, "all histories of <= 2 calls ending in or containing unparse->parse / serde round trips + random histories",
                        {"history": ["op_bin 1 2 '/'", "reparse 7"]})
@@ -1072,7 +1110,7 @@ def c18(a):
     q = a.tier == "quick"
     # the differentiation rules themselves are the float rules (C05): MC_Diff is their model-level check
     cfg = work("C18", "mcdiff.cfg")
-    write_cfg(cfg, {"MaxUn": 1, "Stats": True}, invariants=["RulesOk"])
+    write_cfg(cfg, {"MaxUn": 1, "Stats": False, "SecondOrder": False}, invariants=["RulesOk"])
     res = vlib.run_tlc("MC_Diff", cfg, "C18-mcdiff", workers=16, timeout=3000, heap="6g")
     if not res.ok:
         print(res.out[-3000:])
@@ -1271,7 +1309,12 @@ def c20(a):
                        "(harness_sendsync builds)")
     # (3) real threads: fresh processes so that the lazy statics really are uninitialised
     texts = ["x1*2+sn(x2)|K", "cs(x1 - 3) * (x2 mn 4)", "-(x1+2+3)", "(((x1", "1 2", "x1 pw 2 & x2 % 3"]
-    cfgrec = {"table": t8_table_json(), "texts": [vlib.cps(t) for t in texts],
+    # a second table of the same size over the same data type whose names sort differently (`**` next to `*`): a global that is
+    # keyed by the data type instead of the operator table shows up as a wrong parse in one of the two groups of threads
+    table2 = json.loads(json.dumps(t8_table_json()))
+    table2[5]["name"] = [42, 42]
+    texts2 = ["x1**2*x2", "sn(x1 ** 3) - 1", "x1 * 2 ** x2 ** 3", "(x1 ** 2", "x1 mn 2 ** 2"]
+    cfgrec = {"table": t8_table_json(), "texts": [vlib.cps(t) for t in texts], "table2": table2, "texts2": [vlib.cps(t) for t in texts2],
               "ftexts": ["x*2+sin(y)/(1+z^2)", "atan2(a, b) - max(1, min(a, b))", "1/3+2/7"]}
     runs = 6 if q else 60
     def one(k):
